@@ -1047,3 +1047,387 @@ Section Flatten.
     repeat split. apply by_blocks_map_fst. intros x. reflexivity.
   Qed.
 End Flatten.
+
+(* ------------------------------------------------------------------ *)
+(* front matter: a title line, or a message block and a title line *)
+Lemma front_ok_title : forall t, String.prefix "MESSAGE:" (upper t) = false -> front_ok [t].
+Proof.
+  intros t H. exists None, (Some (rstrip t)). intros X. cbn [List.app read_front_matters]. now rewrite H.
+Qed.
+
+Lemma message_loop_run : forall ms acc t X,
+  forallb (fun l => negb (all_space l)) ms = true -> forall b, all_space b = true ->
+  message_loop (ms ++ b :: t :: X) acc = mkFront (Some (acc ++ map rstrip ms)) (Some (rstrip t)) X.
+Proof.
+  induction ms as [|l r IH]; intros acc t X H b Hb.
+  - cbn [List.app message_loop map]. now rewrite Hb, app_nil_r.
+  - cbn [forallb] in H. apply andb_true_iff in H as [H1 H2]. apply negb_true_iff in H1.
+    cbn [List.app message_loop]. rewrite H1. rewrite (IH _ _ _ H2 b Hb). cbn [map].
+    now rewrite <- app_assoc.
+Qed.
+
+Lemma front_ok_message : forall m0 ms b t,
+  String.prefix "MESSAGE:" (upper m0) = true ->
+  forallb (fun l => negb (all_space l)) ms = true -> all_space b = true ->
+  front_ok (m0 :: ms ++ [b; t]).
+Proof.
+  intros m0 ms b t H0 Hms Hb. eexists _, _. intros X.
+  cbn [List.app read_front_matters]. rewrite H0. rewrite <- app_assoc. cbn [List.app].
+  apply message_loop_run; assumption.
+Qed.
+
+(* ------------------------------------------------------------------ *)
+(* block type of what a file yields *)
+Lemma rd_loop_blank_tail : forall w ls ln bc bt cont hnc,
+  forallb blank_line ls = true -> rd_loop w ls ln bc bt cont hnc [] = ([], None).
+Proof.
+  intros w. induction ls as [|l r IH]; intros ln bc bt cont hnc H; [reflexivity|].
+  cbn [forallb] in H. apply andb_true_iff in H as [H1 H2]. unfold blank_line in H1.
+  cbn [rd_loop]. cbv zeta. rewrite H1. now rewrite IH.
+Qed.
+
+Lemma flush_bt : forall bt raw ln, Forall (fun i => i_bt i = bt) (flush bt raw ln).
+Proof. intros. unfold flush. destruct (nonempty raw); repeat constructor. Qed.
+
+Lemma rd_loop_one_block : forall w ls ln bc bt cont hnc raw,
+  one_block ls = true -> Forall (fun i => i_bt i = bt) (fst (rd_loop w ls ln bc bt cont hnc raw)).
+Proof.
+  intros w. induction ls as [|l r IH]; intros ln bc bt cont hnc raw H.
+  - cbn [rd_loop fst]. apply flush_bt.
+  - cbn [one_block] in H. unfold blank_line in H at 1. cbn [rd_loop]. cbv zeta.
+    destruct (all_space (expandtabs TABSIZE l)).
+    + rewrite rd_loop_blank_tail by exact H. cbn [fst]. rewrite app_nil_r. apply flush_bt.
+    + match goal with |- context [if ?c then (?p, Some UnsupportedFeature) else _] => destruct c end.
+      * cbn [fst]. match goal with |- context [if ?c then _ else _] => destruct c end; [apply flush_bt|constructor].
+      * match goal with |- context [rd_loop w r ?a ?b ?c ?d ?e ?f] =>
+          specialize (IH a b c d e f H); destruct (rd_loop w r a b c d e f) as [o e0] end.
+        cbn [fst] in *. apply Forall_app. split; [|exact IH].
+        match goal with |- context [if ?c then _ else _] => destruct c end; [apply flush_bt|constructor].
+Qed.
+
+Lemma cut_at_err_Forall : forall (P : input -> Prop) ins, Forall P ins -> Forall P (fst (cut_at_err ins)).
+Proof.
+  intros P. induction ins as [|i r IH]; intros H; [constructor|].
+  inversion H as [|? ? Hi Hr]; subst. cbn [cut_at_err].
+  destruct (classify i); [| |constructor]; destruct (cut_at_err r) as [p e]; cbn [fst] in *; constructor; auto.
+Qed.
+
+Lemma cut_at_err_all : forall ins, snd (cut_at_err ins) = false -> fst (cut_at_err ins) = ins.
+Proof.
+  induction ins as [|i r IH]; intros H; [reflexivity|]. cbn [cut_at_err] in *.
+  destruct (classify i); [| |discriminate]; destruct (cut_at_err r) as [p e]; cbn [fst snd] in *; now rewrite IH.
+Qed.
+
+Definition yield_bt (bt : nat) (y : yielded) : Prop :=
+  match y with YInput _ i => i_bt i = bt | YNone => True end.
+
+Lemma scan_file_one_block : forall w bt path ls,
+  one_block ls = true -> Forall (yield_bt bt) (fst (fst (scan_file w bt path ls))).
+Proof.
+  intros w bt path ls H. unfold scan_file, read_data_from.
+  assert (Hr := rd_loop_one_block w ls 0 0 bt false false [] H).
+  destruct (rd_loop w ls 0 0 bt false false []) as [ins e]. cbn [fst] in Hr.
+  assert (Hc := cut_at_err_Forall _ ins Hr). destruct (cut_at_err ins) as [pre perr]. cbn [fst] in *.
+  induction Hc as [|i l Hi Hl IH]; [constructor|]. cbn [map]. constructor; [|exact IH].
+  unfold yield_of. destruct (classify i); cbn; auto.
+Qed.
+
+Lemma item_yields_block : forall w ft dir it,
+  item_one_block ft dir it -> Forall (yield_bt (fst (fst it))) (item_yields w ft dir it).
+Proof.
+  intros w ft dir it H. unfold item_one_block in H. unfold item_yields, item_scan.
+  destruct (ft (item_path dir it)) as [ls|]; cbn [option_map]; [|constructor].
+  assert (Hs := scan_file_one_block w (fst (fst it)) (item_path dir it) ls H).
+  destruct (scan_file w (fst (fst it)) (item_path dir it) ls) as [[ys qs] e]. exact Hs.
+Qed.
+
+Lemma block_of_ycards_all : forall b ys, Forall (yield_bt b) ys -> block_of b (ycards ys) = ycards ys.
+Proof.
+  intros b ys H. unfold block_of. apply filter_all. unfold ycards. apply Forall_map_intro. cbn [fst].
+  induction H as [|y l Hy Hl IH]; [constructor|]. unfold inputs_of. cbn [flat_map].
+  destruct y as [p i|]; cbn [List.app]; [constructor|]; auto. cbn [snd]. cbn in Hy. now apply Nat.eqb_eq.
+Qed.
+
+Lemma block_of_ycards_none : forall b b' ys, b' <> b -> Forall (yield_bt b') ys -> block_of b (ycards ys) = [].
+Proof.
+  intros b b' ys Hne H. unfold block_of, ycards.
+  induction H as [|y l Hy Hl IH]; [reflexivity|]. unfold inputs_of. cbn [flat_map].
+  destruct y as [p i|]; cbn [List.app map filter fst snd]; [|exact IH].
+  cbn in Hy. rewrite Hy. apply Nat.eqb_neq in Hne. rewrite Hne. exact IH.
+Qed.
+
+Lemma block_filter_items : forall w ft dir b l,
+  Forall (item_one_block ft dir) l ->
+  flat_map (fun it => block_of b (ycards (item_yields w ft dir it))) l
+  = flat_map (fun it => ycards (item_yields w ft dir it)) (filter (fun it => Nat.eqb (fst (fst it)) b) l).
+Proof.
+  intros w ft dir b l H. induction H as [|it l Hit Hl IH]; [reflexivity|]. cbn [flat_map filter].
+  assert (Hb := item_yields_block w ft dir it Hit).
+  destruct (Nat.eqb_spec (fst (fst it)) b) as [E|E].
+  - cbn [flat_map]. rewrite <- IH. f_equal. rewrite <- E. now apply block_of_ycards_all.
+  - rewrite <- IH. now rewrite (block_of_ycards_none b _ _ E Hb).
+Qed.
+
+(* block b of the whole reading: the block's own inputs, then the files of the read cards of that block type, in
+   breadth-first order *)
+Lemma readq_block_order : forall w ft top fuel ls ys0 q0 n b,
+  ft top = Some ls ->
+  scan_file w 0 top (f_rest (read_front_matters ls)) = (ys0, q0, None) ->
+  Forall (item_ok w ft (dirname top)) (bfs n w ft (dirname top) q0) ->
+  Forall (item_one_block ft (dirname top)) (bfs n w ft (dirname top) q0) ->
+  gen_at n w ft (dirname top) q0 = [] ->
+  List.length (bfs n w ft (dirname top) q0) <= fuel ->
+  block_of b (ycards (ra_yields (read_all_ft w ft top fuel)))
+    = block_of b (ycards ys0) ++
+      flat_map (fun it => ycards (item_yields w ft (dirname top) it))
+               (filter (fun it => Nat.eqb (fst (fst it)) b) (bfs n w ft (dirname top) q0)).
+Proof.
+  intros * H H0 Hok Hob Hg Hlen.
+  destruct (readq_order _ _ _ _ _ _ _ _ H H0 Hok Hg Hlen) as [Hy _].
+  rewrite Hy, ycards_app, block_of_app, ycards_flat_map. f_equal.
+  unfold block_of at 1. rewrite filter_flat_map. now apply block_filter_items.
+Qed.
+
+(* ------------------------------------------------------------------ *)
+(* what is kept of the stream: everything but the read cards *)
+Lemma item_ok_inputs : forall w ft dir it ys qs,
+  item_scan w ft dir it = Some (ys, qs, None) ->
+  inputs_of ys = map (pair (item_path dir it))
+                     (filter (fun i => negb (is_name (classify i))) (item_inputs w ft dir it)).
+Proof.
+  intros w ft dir it ys qs H. unfold item_scan in H. unfold item_inputs.
+  destruct (ft (item_path dir it)) as [ls|]; cbn [option_map] in H; [|discriminate].
+  injection H as H. unfold scan_file in H.
+  destruct (read_data_from w (fst (fst it)) ls) as [ins e]. cbn [fst].
+  assert (Hall := cut_at_err_all ins). destruct (cut_at_err ins) as [pre perr]. cbn [fst snd] in Hall.
+  injection H as Hy _ He. destruct perr; [discriminate|]. rewrite Hall in Hy by reflexivity. subst ys.
+  apply inputs_yields.
+Qed.
+
+Lemma readq_kept : forall w ft top fuel ls ys0 q0 n,
+  ft top = Some ls ->
+  scan_file w 0 top (f_rest (read_front_matters ls)) = (ys0, q0, None) ->
+  Forall (item_ok w ft (dirname top)) (bfs n w ft (dirname top) q0) ->
+  gen_at n w ft (dirname top) q0 = [] ->
+  List.length (bfs n w ft (dirname top) q0) <= fuel ->
+  inputs_of (ra_yields (read_all_ft w ft top fuel))
+    = map (pair top) (filter (fun i => negb (is_name (classify i)))
+                             (fst (read_data_from w 0 (f_rest (read_front_matters ls))))) ++
+      flat_map (fun it => map (pair (item_path (dirname top) it))
+                              (filter (fun i => negb (is_name (classify i))) (item_inputs w ft (dirname top) it)))
+               (bfs n w ft (dirname top) q0).
+Proof.
+  intros * H H0 Hok Hg Hlen.
+  rewrite (readq_once _ _ _ _ _ _ _ _ H H0 Hok Hg Hlen). f_equal.
+  - unfold scan_file in H0. destruct (read_data_from w 0 (f_rest (read_front_matters ls))) as [ins e]. cbn [fst].
+    assert (Hall := cut_at_err_all ins). destruct (cut_at_err ins) as [pre perr]. cbn [fst snd] in Hall.
+    injection H0 as Hy _ He. destruct perr; [discriminate|]. rewrite Hall in Hy by reflexivity. subst ys0.
+    apply inputs_yields.
+  - eapply flat_map_ext_Forall; [exact Hok|]. intros it [ys [qs Hs]].
+    rewrite (item_yields_scan _ _ _ _ _ _ _ Hs). eapply item_ok_inputs; eauto.
+Qed.
+
+Lemma ycards_no_read_card : forall ys, Forall (fun y => match y with YInput _ i => is_name (classify i) = false | YNone => True end) ys ->
+  Forall (fun c => is_name (classify_lines (snd c)) = false) (ycards ys).
+Proof.
+  intros ys H. unfold ycards. apply Forall_map_intro. cbn [snd].
+  induction H as [|y l Hy Hl IH]; [constructor|]. unfold inputs_of. cbn [flat_map].
+  destruct y; cbn [List.app]; [constructor|]; auto.
+Qed.
+
+Lemma scan_file_no_read_card : forall w bt path ls,
+  Forall (fun y => match y with YInput _ i => is_name (classify i) = false | YNone => True end)
+         (fst (fst (scan_file w bt path ls))).
+Proof.
+  intros. unfold scan_file. destruct (read_data_from w bt ls) as [ins e]. destruct (cut_at_err ins) as [pre perr].
+  cbn [fst]. induction pre as [|i r IH]; [constructor|]. cbn [map]. constructor; [|exact IH].
+  unfold yield_of. destruct (classify i) eqn:E; try exact I; rewrite E; reflexivity.
+Qed.
+
+Lemma drain_no_read_card : forall w ft dir fuel q,
+  Forall (fun y => match y with YInput _ i => is_name (classify i) = false | YNone => True end)
+         (fst (drain fuel ft dir w q)).
+Proof.
+  intros w ft dir. induction fuel as [|f IH]; intros q.
+  - destruct q as [|[[bt name] par] q]; constructor.
+  - destruct q as [|[[bt name] par] q]; [constructor|]. cbn [drain].
+    destruct (ft (path_join dir name)) as [ls|]; [|constructor].
+    assert (Hs := scan_file_no_read_card w bt (path_join dir name) ls).
+    destruct (scan_file w bt (path_join dir name) ls) as [[ys qs] [e|]]; cbn [fst] in *; [exact Hs|].
+    specialize (IH (q ++ qs)). destruct (drain f ft dir w (q ++ qs)) as [ys' e']. cbn [fst] in *.
+    apply Forall_app. now split.
+Qed.
+
+(* no read card is ever handed on, whatever the files hold *)
+Lemma readq_no_read_card : forall w ft top fuel,
+  Forall (fun c => is_name (classify_lines (snd c)) = false) (ycards (ra_yields (read_all_ft w ft top fuel))).
+Proof.
+  intros. apply ycards_no_read_card. unfold read_all_ft. destruct (ft top) as [ls|]; [|constructor]. cbv zeta.
+  assert (Hs := scan_file_no_read_card w 0 top (f_rest (read_front_matters ls))).
+  destruct (scan_file w 0 top (f_rest (read_front_matters ls))) as [[ys qs] [e|]]; cbn [fst] in *; [exact Hs|].
+  assert (Hd := drain_no_read_card w ft (dirname top) fuel qs).
+  destruct (drain fuel ft (dirname top) w qs) as [ys' e']. cbn [fst ra_yields] in *. apply Forall_app. now split.
+Qed.
+
+(* ------------------------------------------------------------------ *)
+(* concrete trees: non-vacuity of the hypotheses, and witnesses of what does not hold *)
+
+Definition cat (l : list string) : string := String.concat "" l.
+
+(* bytes: a top-level file with read cards in the cell and data blocks (one in upper case with a '$' comment and a
+   comment line behind it), a file that reads a further file from a sub-directory, a file that ends in blank lines *)
+Definition ex_fs : fsys :=
+  [ ("/p/top.i", cat [L "title"; L "1 0 -1"; L "read file=c2.i"; L ""; L "1 so 5"; L ""; L "mode n"; L "read file=d1.i"; L "READ FILE = sub/d2.i $ x"; L "c behind"; L "nps 10"]);
+    ("/p/c2.i", L "2 0 1");
+    ("/p/d1.i", cat [L "sdef"; L "read file=sub/d3.i"]);
+    ("/p/sub/d2.i", cat [L "m1 1001.80c 1"; L ""; L "  "]);
+    ("/p/sub/d3.i", L "ctme 5") ].
+
+Definition ex_ft : opener := fs_text ex_fs "/somewhere/else".
+Definition ex_top : string := "/p/top.i".
+Definition ex_q0 : list qitem := [(0, "c2.i", ex_top); (2, "d1.i", ex_top); (2, "sub/d2.i", ex_top)].
+
+Lemma ex_text_hyps :
+  exists ls ys0,
+    ex_ft ex_top = Some ls /\
+    scan_file 128 0 ex_top (f_rest (read_front_matters ls)) = (ys0, ex_q0, None) /\
+    Forall (item_ok 128 ex_ft (dirname ex_top)) (bfs 3 128 ex_ft (dirname ex_top) ex_q0) /\
+    Forall (item_one_block ex_ft (dirname ex_top)) (bfs 3 128 ex_ft (dirname ex_top) ex_q0) /\
+    gen_at 3 128 ex_ft (dirname ex_top) ex_q0 = [] /\
+    bfs 3 128 ex_ft (dirname ex_top) ex_q0 = ex_q0 ++ [(2, "sub/d3.i", "/p/d1.i")] /\
+    List.length (bfs 3 128 ex_ft (dirname ex_top) ex_q0) <= 4.
+Proof.
+  eexists. eexists. split; [vm_compute; reflexivity|]. split; [vm_compute; reflexivity|].
+  assert (E : bfs 3 128 ex_ft (dirname ex_top) ex_q0 = ex_q0 ++ [(2, "sub/d3.i", "/p/d1.i")]) by (vm_compute; reflexivity).
+  rewrite E. split.
+  { repeat constructor; eexists; eexists; vm_compute; reflexivity. }
+  split. { repeat constructor; vm_compute; reflexivity. }
+  split; [vm_compute; reflexivity|]. split; [reflexivity|]. vm_compute. lia.
+Qed.
+
+Lemma ex_text_result :
+  ycards (ra_yields (read_all 128 ex_fs "/somewhere/else" ex_top 4))
+  = [ (0, ["1 0 -1"]); (1, ["1 so 5"]); (2, ["mode n"]); (2, ["nps 10"]);
+      (0, ["2 0 1"]); (2, ["sdef"]); (2, ["m1 1001.80c 1"]); (2, ["ctme 5"]) ]
+  /\ ra_error (read_all 128 ex_fs "/somewhere/else" ex_top 4) = None.
+Proof. split; vm_compute; reflexivity. Qed.
+
+(* a missing target *)
+Lemma ex_missing :
+  exists ls ys0 q0 pre it post,
+    fs_text (removelast ex_fs) "/" ex_top = Some ls /\
+    scan_file 128 0 ex_top (f_rest (read_front_matters ls)) = (ys0, q0, None) /\
+    bfs 3 128 (fs_text (removelast ex_fs) "/") (dirname ex_top) q0 = pre ++ it :: post /\
+    Forall (item_ok 128 (fs_text (removelast ex_fs) "/") (dirname ex_top)) pre /\
+    item_missing (fs_text (removelast ex_fs) "/") (dirname ex_top) it /\ List.length pre < 4.
+Proof.
+  eexists. eexists. exists ex_q0, ex_q0, (2, "sub/d3.i", "/p/d1.i"), [].
+  split; [vm_compute; reflexivity|]. split; [vm_compute; reflexivity|]. split; [vm_compute; reflexivity|].
+  split. { repeat constructor; eexists; eexists; vm_compute; reflexivity. }
+  split; [vm_compute; reflexivity|]. vm_compute. lia.
+Qed.
+
+(* the same problem given by its cards *)
+Definition ex_tsf : sfile :=
+  mkS [[L "1 0 -1"]; [L "read file=c2.i"]]
+      [ (L "", [[L "c in front"; L "1 so 5"]]);
+        (L "", [[L "mode n"]; [L "read file=d1.i"]; [L "READ FILE = sub/d2.i $ x"; L "c behind"]; [L "nps 10"; L "     11"]]) ].
+Definition ex_tree : stree :=
+  [ ("/p/c2.i", mkS [[L "2 0 1"]] []);
+    ("/p/d1.i", mkS [[L "sdef"]; [L "read &"; L "file sub/d3.i"]] []);
+    ("/p/sub/d2.i", mkS [[L "m1 1001.80c 1"]] [(L "", []); (L "  ", [])]);
+    ("/p/sub/d3.i", mkS [[L "ctme 5"]] []) ].
+
+Lemma ex_tree_hyps :
+  front_ok [L "MESSAGE: x"; L "more"; L ""; L "title"] /\ front_ok [L "title"] /\
+  top_ok 128 ex_tsf = true /\ slookup ex_tree ex_top = None /\
+  Forall (s_item_ok 128 ex_tree (dirname ex_top))
+         (bfsG (s_children 128 ex_tree (dirname ex_top)) 3 (reads_of 128 ex_top (sfile_tcards 0 ex_tsf))) /\
+  gen_atG (s_children 128 ex_tree (dirname ex_top)) 3 (reads_of 128 ex_top (sfile_tcards 0 ex_tsf)) = [] /\
+  List.length (bfsG (s_children 128 ex_tree (dirname ex_top)) 3 (reads_of 128 ex_top (sfile_tcards 0 ex_tsf))) = 4.
+Proof.
+  split. { apply (front_ok_message _ [L "more"]); reflexivity. }
+  split. { apply front_ok_title. reflexivity. }
+  split; [vm_compute; reflexivity|]. split; [reflexivity|].
+  assert (E : bfsG (s_children 128 ex_tree (dirname ex_top)) 3 (reads_of 128 ex_top (sfile_tcards 0 ex_tsf))
+              = ex_q0 ++ [(2, "sub/d3.i", "/p/d1.i")]) by (vm_compute; reflexivity).
+  rewrite E. split.
+  { repeat constructor; eexists; (split; [vm_compute; reflexivity|vm_compute; reflexivity]). }
+  split; vm_compute; reflexivity.
+Qed.
+
+Lemma ex_flatten :
+  render (flatten 128 ex_tree ex_top ex_tsf 3)
+  = [ L "1 0 -1"; L "2 0 1"; L "";
+      L "c in front"; L "1 so 5"; L "";
+      L "mode n"; L "nps 10"; L "     11"; L "sdef"; L "m1 1001.80c 1"; L "ctme 5" ].
+Proof. vm_compute. reflexivity. Qed.
+
+(* a sub-file with a blank line between two inputs: the second one is taken for a surface although the read card
+   stood in the data block *)
+Definition blank_fs : fsys :=
+  [ ("/p/top.i", cat [L "t"; L "1 0 -1"; L ""; L "1 so 5"; L ""; L "read file=d.i"]);
+    ("/p/d.i", cat [L "nps 10"; L ""; L "mode n"]) ].
+
+Lemma block_refuted :
+  exists w fs cwd top fuel it p i,
+    ra_error (read_all w fs cwd top fuel) = None /\
+    snd (fst (scan_file w 0 top (f_rest (read_front_matters (file_lines (snd (List.hd ("", "") fs))))))) = [it] /\
+    In (YInput p i) (item_yields w (fs_text fs cwd) (dirname top) it) /\
+    fst (fst it) = 2 /\ i_bt i = 1 /\ i_lines i = ["mode n"].
+Proof.
+  exists 128, blank_fs, "/", "/p/top.i", 5, (2, "d.i", "/p/top.i"), "/p/d.i", (mkInput 1 ["mode n"] 3).
+  split; [vm_compute; reflexivity|]. split; [vm_compute; reflexivity|].
+  split; [vm_compute; right; left; reflexivity|]. repeat split.
+Qed.
+
+(* a sub-file that begins with a comment line: in the tree the comment stays with the sub-file's first input, in the
+   flattened file it goes to the input in front of it (the inputs are the same apart from that comment line) *)
+Definition lead_tsf : sfile := mkS [[L "1 0 -1"]] [(L "", [[L "1 so 5"]]); (L "", [[L "mode n"]; [L "read file=d.i"]])].
+Definition lead_tree : stree := [("/p/d.i", mkS [[L "c lead"; L "nps 10"]] [])].
+
+Lemma flatten_lead_comment_refuted :
+  exists w t top front tsf n fuel,
+    front_ok front /\ top_ok w tsf = true /\ slookup t top = None /\
+    Forall (fun it => exists sf, slookup t (item_path (dirname top) it) = Some sf /\ sfile_ok w sf = true /\
+                                 s_more sf = [])
+           (bfsG (s_children w t (dirname top)) n (reads_of w top (sfile_tcards 0 tsf))) /\
+    gen_atG (s_children w t (dirname top)) n (reads_of w top (sfile_tcards 0 tsf)) = [] /\
+    List.length (bfsG (s_children w t (dirname top)) n (reads_of w top (sfile_tcards 0 tsf))) <= fuel /\
+    ycards (ra_yields (read_all_ft w (tree_ft top (front ++ render tsf) t) top fuel))
+      = [(0, ["1 0 -1"]); (1, ["1 so 5"]); (2, ["mode n"]); (2, ["c lead"; "nps 10"])] /\
+    ycards (ra_yields (read_single w (front ++ render (flatten w t top tsf n))))
+      = [(0, ["1 0 -1"]); (1, ["1 so 5"]); (2, ["mode n"; "c lead"]); (2, ["nps 10"])].
+Proof.
+  exists 128, lead_tree, "/p/top.i", [L "title"], lead_tsf, 2, 1.
+  split. { apply front_ok_title. reflexivity. }
+  split; [vm_compute; reflexivity|]. split; [reflexivity|].
+  split. { vm_compute. repeat constructor. eexists. repeat split. }
+  split; [vm_compute; reflexivity|]. split; [vm_compute; lia|]. split; vm_compute; reflexivity.
+Qed.
+
+(* a read card cycle: cy2.i holds a data input and reads itself *)
+Definition cy_fs : fsys :=
+  [ ("/p/top.i", cat [L "t"; L "1 0 -1"; L ""; L "1 so 5"; L ""; L "read file=cy2.i"]);
+    ("/p/cy2.i", cat [L "nps 10"; L "read file=cy2.i"]) ].
+
+Lemma cycle_example : forall cwd fuel,
+  ra_error (read_all 128 cy_fs cwd "/p/top.i" fuel) = Some E_OutOfFuel.
+Proof.
+  intros cwd fuel. unfold read_all.
+  assert (Hft : forall name, fs_text cy_fs cwd (path_join "/p" name) = fs_text cy_fs "/" (path_join "/p" name)).
+  { intros name. apply fs_text_abs. now apply path_join_abs. }
+  rewrite (read_all_ext (fs_text cy_fs cwd) (fs_text cy_fs "/") 128 "/p/top.i" fuel);
+    [|now apply fs_text_abs|exact Hft].
+  eapply (readq_cycle 128 (fs_text cy_fs "/") "/p/top.i" _ _ [(2, "cy2.i", "/p/top.i")]
+            (fun it => fst it = (2, "cy2.i")) (fun it => fst it = (2, "cy2.i"))).
+  - vm_compute. reflexivity.
+  - vm_compute. reflexivity.
+  - intros [[bt name] par] H. cbn [fst] in H. injection H as -> ->. split.
+    + eexists. eexists. vm_compute. reflexivity.
+    + vm_compute. repeat constructor.
+  - intros [[bt name] par] H. cbn [fst] in H. injection H as -> ->. split; [reflexivity|].
+    vm_compute. constructor. reflexivity.
+  - repeat constructor.
+  - constructor. reflexivity.
+Qed.
